@@ -45,6 +45,9 @@ var documented = []string{"prod", "latest", "v1", "rc-1", "release_2", "√©", "Êó
 var dotted = []string{"v1.0.0", "1.2.3", "v2.0", "a.b", "1.0"}
 var hostile = []string{"a/b", "/", "a/", "/a", "..", ".", "a b", " lead", "label.yaml", "a#1", "a\tb", "x/y/z", "√©/√º", strings.Repeat("n", 300), "aÃÅ", "a:b", "*", "?", "a\nb", "label.yaml/x"}
 
+// special characters that a key scheme, a listing pipeline or a YAML document may treat specially
+var special = []string{"#", "@", "%", "+", "=", ",", ";", "!", "~", "$", "&", "'", "\"", "(", "[", "{", "|", "^", "`", "<", "\\", "#1#2", "%2F", "--", "__"}
+
 func gen08(seed int64, tier string) []drv.Case {
 	r := gen.Rand(seed, "c08")
 	n := 40
@@ -65,6 +68,11 @@ func gen08(seed int64, tier string) []drv.Case {
 		var names []string
 		for j := 0; j < 3+r.Intn(8); j++ {
 			names = append(names, pool[r.Intn(len(pool))])
+		}
+		if cls == "hostile-mix" {
+			// every hostile name (and generated names around each special character) is used by some history of the run
+			k := i / 3
+			names = append(names, hostile[k%len(hostile)], special[k%len(special)]+fmt.Sprint(r.Intn(10000)), fmt.Sprint("n", r.Intn(100))+special[(k/2)%len(special)]+"x")
 		}
 		steps := 30 + r.Intn(60)
 		if tier == "thorough" {
